@@ -1,10 +1,12 @@
 import EchVerif.Hex
 import EchVerif.ECH.Config
+import EchVerif.ECH.Conn
+import EchVerif.Spec.Hello
 /-
   echdrv: line protocol driver.  One op per input line, one answer per output line.
   Imports no Mathlib (so that it links).  Each handler lives next to the model it drives.
 -/
-open Hex ECH
+open Hex ECH TLS
 
 namespace Drv
 
@@ -21,6 +23,126 @@ def readSuites (s : String) : Option (List CipherSuite) := do
 
 def showSpec (c : ConfigSpec) : String :=
   s!"{c.version} {c.id} {c.kem} {hex c.publicKey} {showSuites c.suites} {c.maxNameLen} {hex c.publicName}"
+
+/-- per-case state of the Conn family ops -/
+structure World where
+  H : Hpke := {}
+  keys : List Key := []
+  st : St := {}
+  tr : Tr := { chunks := [], fin := .eof }
+  outSeen : Nat := 0
+
+def ioStr : IOErr → String
+  | .eof => "eof" | .fail => "fail" | .closed => "closed" | .timeout => "timeout"
+
+def errStr : Option Err → String
+  | none => "-"
+  | some .unexpected => "unexpected"
+  | some .illegal => "illegal"
+  | some .decode => "decode"
+  | some .missing => "missing"
+  | some .decrypt => "decrypt"
+  | some .other => "other"
+  | some .panic => "panic"
+  | some (.io e) => "io:" ++ ioStr e
+
+def finOf (s : String) : Option IOErr :=
+  match s with
+  | "eof" => some .eof | "fail" => some .fail | "timeout" => some .timeout | _ => none
+
+/-- bytes written towards the client since the previous op -/
+def outDelta (w : World) (t : Tr) : String := hex (t.out.drop w.outSeen)
+
+def connOp (w : World) (toks : List String) : Option (World × String) :=
+  match toks with
+  | ["reset"] => some ({}, "ok")
+  | ["key", cfg, priv] => do
+    let cfg ← unhex cfg; let priv ← unhex priv
+    some ({ w with keys := w.keys ++ [⟨cfg, priv⟩] }, "ok")
+  | ["hpke-priv", kem, priv] => do
+    let kem ← kem.toNat?; let priv ← unhex priv
+    some ({ w with H := { w.H with privOk := (kem, priv) :: w.H.privOk } }, "ok")
+  | ["hpke-setup", priv, kem, kdf, aead, enc] => do
+    let priv ← unhex priv; let kem ← kem.toNat?; let kdf ← kdf.toNat?; let aead ← aead.toNat?; let enc ← unhex enc
+    some ({ w with H := { w.H with setupOk := (priv, kem, kdf, aead, enc) :: w.H.setupOk } }, "ok")
+  | ["hpke-seal", priv, kem, kdf, aead, info, enc, seq, aad, ct, pt] => do
+    let priv ← unhex priv; let kem ← kem.toNat?; let kdf ← kdf.toNat?; let aead ← aead.toNat?
+    let info ← unhex info; let enc ← unhex enc; let seq ← seq.toNat?
+    let aad ← unhex aad; let ct ← unhex ct; let pt ← unhex pt
+    some ({ w with H := { w.H with seals := ⟨priv, kem, kdf, aead, info, enc, seq, aad, ct, pt⟩ :: w.H.seals } }, "ok")
+  | ["new", chunks, fin] => do
+    let chunks ← unhexList chunks; let fin ← finOf fin
+    let r := newConn w.H w.keys { chunks := chunks, fin := fin }
+    let w' := { w with st := r.st, tr := r.tr, outSeen := r.tr.out.length }
+    some (w', s!"err={errStr r.err} accepted={if r.st.accepted then 1 else 0} presented={if r.st.presented then 1 else 0} sni={hex r.st.serverName} alpn={hexList r.st.alpn} out={hex r.tr.out} closed={if r.tr.closed then 1 else 0}")
+  | ["feed", chunks, fin] => do
+    let chunks ← unhexList chunks; let fin ← finOf fin
+    some ({ w with tr := { w.tr with chunks := w.tr.chunks ++ chunks, fin := fin } }, "ok")
+  | ["read", n] => do
+    let n ← n.toNat?
+    let r := connRead w.H w.st w.tr n
+    let w' := { w with st := r.st, tr := r.tr, outSeen := r.tr.out.length }
+    some (w', s!"data={hex r.data} err={errStr r.err} out={outDelta w r.tr} closed={if r.tr.closed then 1 else 0}")
+  | ["write", b] => do
+    let b ← unhex b
+    let r := connWrite w.st w.tr b
+    let w' := { w with st := r.st, tr := r.tr, outSeen := r.tr.out.length }
+    some (w', s!"n={r.n} err={errStr r.err} out={outDelta w r.tr} closed={if r.tr.closed then 1 else 0}")
+  | ["state"] =>
+    some (w, s!"retry={w.st.retry} readPT={w.st.readPT} writePT={w.st.writePT} readBuf={w.st.readBuf.length} writeBuf={w.st.writeBuf.length} seq={(w.st.ctx.map (·.seq)).getD 0}")
+  | _ => none
+
+/-- specification predicates evaluated on implementation output (Conn family) -/
+def specOp (toks : List String) : Option String :=
+  match toks with
+  -- C03: impl's first delivered record must be the spec inner hello; names must be those of that hello
+  | ["c03-spec", enc, outerRec, delivered, sni, alpn] => do
+    let enc ← unhex enc; let outerRec ← unhex outerRec; let delivered ← unhex delivered
+    let sni ← unhex sni; let alpn ← unhexList alpn
+    match Spec.bodyOfRecord outerRec with
+    | none => some "S fail outer-record-unreadable"
+    | some body =>
+      match Spec.fields body with
+      | none => some "S fail outer-fields-unreadable"
+      | some f =>
+        match Spec.specInner enc f.sid f.extBlock with
+        | none => some "S fail specInner-undefined-but-accepted"
+        | some want =>
+          if want ≠ delivered then some "S fail delivered-record-differs-from-specInner" else
+          match Spec.bodyOfRecord want with
+          | none => some "S fail spec-record-unreadable"
+          | some ib =>
+            match (Spec.fields ib).bind (fun g => Spec.extsOf g.extBlock) with
+            | none => some "S fail spec-exts-unreadable"
+            | some es =>
+              if Spec.sniOfExts es ≠ sni then some "S fail ServerName-differs-from-inner" else
+              if Spec.alpnOfExts es ≠ alpn then some "S fail ALPNProtos-differ-from-inner" else some "S ok"
+  -- C03/C04: specInner must be undefined (the implementation aborted)
+  | ["c03-undefined", enc, outerRec] => do
+    let enc ← unhex enc; let outerRec ← unhex outerRec
+    match (Spec.bodyOfRecord outerRec).bind Spec.fields with
+    | none => some "S ok"
+    | some f => if (Spec.specInner enc f.sid f.extBlock).isSome then some "S fail specInner-defined-but-aborted" else some "S ok"
+  -- C05: delivered record = client's record up to header version bytes; names from an independent reading
+  | ["c05-spec", rec, delivered, sni, alpn] => do
+    let rec ← unhex rec; let delivered ← unhex delivered; let sni ← unhex sni; let alpn ← unhexList alpn
+    if rec.length ≠ delivered.length then some "S fail length-differs" else
+    if rec.take 1 ≠ delivered.take 1 ∨ rec.drop 3 ≠ delivered.drop 3 then some "S fail bytes-differ-beyond-record-version" else
+    match (Spec.bodyOfRecord rec).bind Spec.fields with
+    | none => some "S fail hello-unreadable"
+    | some f =>
+      match Spec.extsOf f.extBlock with
+      | none => some "S fail exts-unreadable"
+      | some es =>
+        if Spec.sniOfExts es ≠ sni then some "S fail ServerName-differs" else
+        if Spec.alpnOfExts es ≠ alpn then some "S fail ALPNProtos-differ" else some "S ok"
+  -- L-AAD: the implementation-independent AAD of an outer record
+  | ["aad-spec", rec] => do
+    let rec ← unhex rec
+    match (Spec.bodyOfRecord rec).bind Spec.aadSpec with
+    | some a => some ("ok " ++ hex a)
+    | none => some "err"
+  | _ => none
 
 def handle (toks : List String) : String :=
   match toks with
@@ -68,16 +190,20 @@ def handle (toks : List String) : String :=
     | none => "bad-op"
   | _ => "bad-op"
 
-partial def loop (h : IO.FS.Stream) (out : IO.FS.Stream) : IO Unit := do
+partial def loop (h : IO.FS.Stream) (out : IO.FS.Stream) (w : World) : IO Unit := do
   let line ← h.getLine
   if line.isEmpty then return ()
   let toks := (line.trimAscii.toString.splitOn " ").filter (· ≠ "")
-  out.putStrLn (handle toks)
-  loop h out
+  match connOp w toks with
+  | some (w', ans) => out.putStrLn ans; loop h out w'
+  | none =>
+    match specOp toks with
+    | some ans => out.putStrLn ans; loop h out w
+    | none => out.putStrLn (handle toks); loop h out w
 
 end Drv
 
 def main : IO Unit := do
   let out ← IO.getStdout
-  Drv.loop (← IO.getStdin) out
+  Drv.loop (← IO.getStdin) out {}
   out.flush
